@@ -81,7 +81,12 @@ META = {
               "(thorough 4, 8) bytes and of 3 blocks of 2 (thorough 2, 4, "
               "8) bytes at symbolic word-aligned SDRAM addresses, symbolic "
               "time / ms / length words (length <= block size), symbolic "
-              "text; get_iobuf on fixed ASCII text.  16 symbolic router "
+              "text; get_iobuf on fixed ASCII text.  Console history: one "
+              "controller dumps core p of a chip with iobuf_size 2 (one "
+              "block) and of a chip with iobuf_size 6 (thorough 8; 1 or 2 "
+              "blocks, every block but the last full, last length "
+              "symbolic), in either order, addresses / times / text "
+              "symbolic.  16 symbolic router "
               "counters.  sver: arg1, arg3, buffer size and the legacy "
               "version 0..0xfffe symbolic, 3 name strings; semantic "
               "versions from a menu of 6 strings.  B (pure functions on a "
@@ -144,8 +149,8 @@ META = {
         "P2P tables larger than those listed (256 x 256 addressing is "
         "covered in one dimension at a time: 255x1, 1x255)",
         "timeouts / lost datagrams while probing (C06)",
-        "sequences of more than two probes, and a machine changing while "
-        "a probe is in progress",
+        "sequences of more than two probes / two console dumps per "
+        "controller, and a machine changing while a probe is in progress",
         "get_processor_status unpacks with native byte order: on a "
         "big-endian host the decode differs; only little-endian hosts "
         "are modelled",
@@ -1145,6 +1150,95 @@ def h_iobuf(ctx, sizes, nblocks, text=False):
     no_problems(ctx, machine)
 
 
+def install_console(ctx, machine, chip, p, size, nb, full_before_last):
+    """sv->iobuf_size = size on `chip`, and a console chain of nb blocks for
+    core p: symbolic addresses, times and lengths, symbolic text.  With
+    full_before_last every block but the last is full (as SARK chains
+    them).  Returns (block addresses, lengths, texts)."""
+    machine.memory(chip).write(SV_BASE + SV_IOBUF_SIZE, le(size, 4))
+    addrs = []
+    for k in range(nb):
+        a = ctx.bv("block%d" % k, 32)
+        ctx.assume(sand(a % 4 == 0, a >= 0x60000000,
+                        a + size + 16 <= 0x80000000))
+        for b in addrs:
+            ctx.assume(sor(a + size + 16 <= b, b + size + 16 <= a))
+        addrs.append(a)
+    first = addrs[0] if nb else 0
+    off, n = VCPU_LAYOUT["iobuf"]
+    block = cat(ctx.bytes("vcpu_a", off), le(first, 4),
+                ctx.bytes("vcpu_b", VCPU_SIZE - off - n))
+    install_vcpu(ctx, machine, chip, p, block)
+    lengths, texts = [], []
+    for k in range(nb):
+        nxt = addrs[k + 1] if k + 1 < nb else 0
+        length = ctx.bv("length%d" % k, 32)
+        if full_before_last and k + 1 < nb:
+            ctx.assume(length == size)
+        else:
+            ctx.assume(length <= size)
+        data = ctx.bytes("text%d" % k, size)
+        hdr = cat(le(nxt, 4), le(ctx.bv("time%d" % k, 32), 4),
+                  le(ctx.bv("ms%d" % k, 32), 4), le(length, 4))
+        machine.region(chip, addrs[k], cat(hdr, data))
+        lengths.append(length)
+        texts.append(data)
+    return addrs, lengths, texts
+
+
+def h_iobuf_history(ctx, sizes):
+    """One controller dumps the console of a core on one chip and then on
+    another whose sv->iobuf_size differs: each dump is that chip's console
+    (nothing about block sizes carried over from the earlier chip)."""
+    from rig.machine_control import MachineController
+    small, large = sizes
+    A, B = (0, 0), (1, 0)
+    rig = Rig(ctx)
+    machine = rig.machine
+    order = ctx.pick(["small-first", "large-first"])
+    nb_large = ctx.pick([1, 2])
+    p = ctx.bv("p", 5)
+    ctx.assume(p <= 17)
+    cons = {A: (small, install_console(ctx, machine, A, p, small, 1, True)),
+            B: (large, install_console(ctx, machine, B, p, large, nb_large,
+                                       True))}
+    seq = [A, B] if order == "small-first" else [B, A]
+    got = {}
+    with rig:
+        mc = MachineController("host")
+        try:
+            for chip in seq:
+                got[chip] = mc.get_iobuf_bytes(p, chip[0], chip[1])
+        except Exception as e:
+            return unexpected(ctx, e, "iobuf-unexpected-exception")
+    ctx.observe([got[c] for c in seq])
+    ctx.witness("history-" + order)
+    beyond = False
+    for chip in seq:
+        size, (addrs, lengths, texts) = cons[chip]
+        want = b""
+        for k in range(len(addrs)):
+            ln = lengths[k]
+            ln = int(ln) if is_sym(ln) else ln
+            if chip == B and ln > small:
+                beyond = True
+            want = want + texts[k][:ln]
+        g = got[chip]
+        ctx.prove(len(g) == len(want), "iobuf-wrong-length",
+                  (order, chip, len(g), len(want)))
+        if len(g) == len(want):
+            ctx.prove(g == want, "iobuf-wrong-bytes", (order, chip, g, want))
+        blocks = [a for (c, a, n) in machine.read_log if c == chip and
+                  decide(sand(a >= 0x60000000, a < 0x80000000))]
+        ctx.prove(len(blocks) == len(addrs), "iobuf-blocks-read",
+                  (chip, len(blocks), len(addrs)))
+        for a, b in zip(blocks, addrs):
+            ctx.prove(a == b, "iobuf-blocks-read")
+    if beyond:
+        ctx.witness("block-beyond-smaller-size")
+    no_problems(ctx, machine)
+
+
 # ----------------------------------------------------------------------
 # A6: get_router_diagnostics;  A7: get_software_version
 # ----------------------------------------------------------------------
@@ -1454,6 +1548,11 @@ def units(tier, seed):
     us.append(Unit("iobuf text", h_iobuf, dict(
         sizes=(4,), nblocks=(0, 1, 2) if q else (0, 1, 2, 3), text=True),
         split=5, witnesses=("iobuf-0", "iobuf-2")))
+    us.append(Unit("iobuf history: two chips, one controller",
+                   h_iobuf_history, dict(sizes=(2, 6) if q else (2, 8)),
+                   split=6, witnesses=(
+                       "history-small-first", "history-large-first",
+                       "block-beyond-smaller-size")))
     us.append(Unit("router diagnostics", h_diagnostics, {},
                    witnesses=("diagnostics",)))
     us.append(Unit("software version", h_sver, {}, split=3,
